@@ -27,6 +27,7 @@ fn handle(words: &[&str]) -> String {
         Some("sched") => sched_cmd::run(&words[1..]),
         Some("mem_rs") => mem_cmd::run(&words[1..]),
         Some("exec1") => exec_cmd::run(&words[1..]),
+        Some("exec_split") => exec_cmd::run_split(&words[1..]),
         Some("asynccpu") => sched_cmd::run_cpu(&words[1..]),
         Some(c) => format!("ERR unknown-command {c}"),
         None => "ERR empty".to_string(),
